@@ -73,6 +73,17 @@ CHECKS["C18"] = dict(
     note=_XH_NOTE + " tidytcells' answers and pandas' join algorithm are uninterpreted.",
     ref="DESIGN.md section 6 C18")
 
+CHECKS["C05"] = dict(
+    technique="bounded symbolic execution of the real pcDelta / downsample / default-metric code (CrossHair + z3): metric distances, bin edges and pseudocount are symbolic reals, numpy.random is a nondeterministic oracle (every possible draw), histogram counts are compared as z3 terms",
+    text="For any Metric (its outputs are fresh symbolic non-negative reals) and 1-3 symbolic increasing bin edges: per-bin counts follow the half-open/last-closed convention, one entry per unordered pair (cross form: every (i,j)), normalisation and (count+c)/(total+2c) arithmetic; with the real Levenshtein metric on free strings: diagonal excluded, distance-0 count, bins=0 == pc; default metric class for every column subset; with maxseqs the histogram is that of exactly min(N, maxseqs) drawn elements for EVERY outcome of the generator; background bins = index + [last+1].",
+    note=_XH_NOTE + " numpy.histogram / random.choice contracts; floats are reals.",
+    ref="DESIGN.md section 6 C05")
+CHECKS["C08"] = dict(
+    technique="bounded symbolic execution of WeightedLevenshtein / Levenshtein / pdist / cdist with SYMBOLIC edit weights and free strings (CrossHair + z3); oracle = independent top-down minimum-cost edit-script term",
+    text="calc_cdist_matrix[i,j] equals the minimum total weight of insertions/deletions/substitutions turning A[i] into B[j] for all positive integer weight triples in range (asymmetric weights included) and all strings of length <= 2 (3 thorough); calc_pdist_vector obeys the SciPy condensed index formula for m <= 5; functional pdist/cdist place an arbitrary metric's values correctly and forward keyword arguments; no narrowing dtype/score_cutoff is passed to rapidfuzz.process.cdist. The 400-character no-wrap-around clause is outside the claim (see DESIGN.md).",
+    note=_XH_NOTE,
+    ref="DESIGN.md section 6 C08")
+
 NOT_APPLICABLE = {}
 
 def main():
